@@ -15,8 +15,10 @@ import (
 
 // component "queue": queue/queue.go Tagged.Push / Pop through the public API, the
 // tag-guarded VerifDump, and client.recoverFile (sts.Recovered) through the tag-guarded
-// constructor. Properties: C10 (order within a group, predecessor chain) and C12 (strict
-// priority, round robin, last-file delay).
+// constructor. Properties: C10 (order within a group, predecessor chain), C12 (strict
+// priority, round robin, last-file delay) and, through the oracles whose kind starts with
+// `prev-chain`, C07 (after a restart the ordering chain continues from the placeholders that
+// recover() queues for the files handled before the crash: Props/C07Chain).
 //
 // ops:
 //
@@ -87,9 +89,106 @@ func (queueComp) Corpus() [][]string {
 		{"tags t2 1 bogus 0 0", "push t2.g0/f4 0 1000000000", "push t2.g0/f5 10 1000000001", "pop " + now, "push t2.g0/f5 2 1000000003",
 			"push t2.g0/f1 30 1000000003", "push t2.g0/f5 11 1000000001", "dump", "pop " + now, "pop " + now, "pop " + now, "dump"},
 		{"tags t1 2 lifo 11 3600", "push t1.g0/f5 0 4000000000", "push t1.g0/f4 5 1000000001", "pop " + now, "push t1.g0/f4 20 4000000000", "dump", "pop " + now, "dump"},
+		// restart chain (C07 chain continues, Props/C07Chain): the first file behind dropped placeholders announces the
+		// last of them: two placeholders with different / equal timestamps, fifo / lifo / alpha / arrival order
+		{"tags t1 0 fifo 0 0", "push t1.g/p1 10 1000000001 rec -", "push t1.g/p2 10 1000000002 rec -", "push t1.g/x 5 1000000003", "dump", "pop " + now, "dump"},
+		{"tags t1 0 fifo 3 0", "push t1.g/x 5 1000000000", "push t1.g/p2 10 1000000000 rec -", "push t1.g/p1 10 1000000000 rec -", "pop " + now, "pop " + now, "dump"},
+		{"tags t1 0 lifo 0 0", "push t1.g/x 5 1000000001", "push t1.g/p1 10 1000000003 rec -", "push t1.g/p2 10 1000000002 rec -", "pop " + now, "dump"},
+		{"tags t1 0 - 0 0", "push t1.g/c 5 1000000001", "push t1.g/b 10 1000000003 rec -", "push t1.g/a 10 1000000002 rec -", "push t1.g/d 5 1000000000", "pop " + now, "pop " + now, "dump"},
+		{"tags t1 0 bogus 0 0", "push t1.g/p 10 1000000003 rec -", "push t1.g/x 5 1000000001", "pop " + now, "dump"},
+		// one placeholder behind a file sent completely in the same run: the survivor announces the placeholder, not that file
+		{"tags t1 0 fifo 0 0", "push t1.g/a 4 1000000000", "pop " + now, "push t1.g/p1 10 1000000001 rec -", "push t1.g/x 5 1000000003", "dump", "pop " + now, "dump"},
+		// a placeholder arriving in front of a half-emitted file: its later chunks announce the placeholder
+		{"tags t1 0 fifo 2 0", "push t1.g/x 5 1000000003", "pop " + now, "push t1.g/p 10 1000000001 rec -", "pop " + now, "pop " + now, "dump"},
+		// a zero-size plain file is dropped like a placeholder; a resumed survivor keeps its own predecessor
+		{"tags t1 0 fifo 0 0", "push t1.g/z 0 1000000001", "push t1.g/x 5 1000000003", "pop " + now, "dump"},
+		{"tags t1 0 fifo 0 0", "push t1.g/p1 10 1000000001 rec -", "push t1.g/r 9 1000000002 rec t1.g/zz 2:9", "push t1.g/y 5 1000000003", "pop " + now, "pop " + now, "dump"},
 		// malformed
 		{"tags t1 0 fifo", "push a", "pop", "pop x", "frob", "tags t1 0 fifo 0 0", "push t1/a x 1", "push t1/a 1 1000000000 rec", "push t1/a 1 1000000000 rec - 1:x", "dump"},
 	}
+}
+
+// ---------------------------------------------------------------- coverage of the restart chain
+
+// qChainStats counts how often the executed histories put Pop into the situation of Props/C07Chain
+// `chain_continues_after_placeholders` (the scan drops k >= 1 fully allocated placeholders and a plain file
+// of an ordered group survives): stats.json "extra". One harness process runs one component.
+var qChainStats struct {
+	cases, events          int
+	one, two, three        int // number of placeholders dropped: 1, 2, 3 or more
+	sameTime, diffTime     int // the dropped placeholders and the survivor carry one timestamp / several
+	firstChunk, laterChunk int // the survivor's first chunk / a later chunk (the placeholders arrived in between)
+	afterDone              int // a file of the group had been emitted completely before (kept in front of the placeholders)
+	zeroSize               int // at least one dropped entry was a zero-size plain file, not a Recovered placeholder
+	resumedSurvivor        int // the survivor was a resumed file (rule prev-recovered instead)
+	unordered              int // the group's tag is unordered (no predecessor announced)
+	byOrder                map[string]int
+}
+
+func (queueComp) ExtraStats() map[string]any {
+	s := &qChainStats
+	by := map[string]any{}
+	for k, v := range s.byOrder {
+		if k == "" {
+			k = "alpha"
+		}
+		by[k] = v
+	}
+	return map[string]any{
+		"chain_cases": s.cases, "chain_events": s.events,
+		"chain_placeholders_1": s.one, "chain_placeholders_2": s.two, "chain_placeholders_3plus": s.three,
+		"chain_same_time": s.sameTime, "chain_diff_time": s.diffTime,
+		"chain_first_chunk": s.firstChunk, "chain_later_chunk": s.laterChunk,
+		"chain_after_completed_file": s.afterDone, "chain_zero_size_dropped": s.zeroSize,
+		"chain_resumed_survivor": s.resumedSurvivor, "chain_unordered_group": s.unordered,
+		"chain_by_order": by,
+	}
+}
+
+func (e *queueExec) noteChain(sg *shGroup, dropped []*shEnt, cur *shEnt) {
+	s := &qChainStats
+	if s.byOrder == nil {
+		s.byOrder = map[string]int{}
+	}
+	s.events++
+	if !e.chainHit {
+		e.chainHit = true
+		s.cases++
+	}
+	switch n := len(dropped); {
+	case n == 1:
+		s.one++
+	case n == 2:
+		s.two++
+	default:
+		s.three++
+	}
+	same, zero := true, false
+	for _, d := range dropped {
+		if d.t != cur.t {
+			same = false
+		}
+		if d.rec == nil {
+			zero = true
+		}
+	}
+	if same {
+		s.sameTime++
+	} else {
+		s.diffTime++
+	}
+	if zero {
+		s.zeroSize++
+	}
+	if cur.alloc == 0 {
+		s.firstChunk++
+	} else {
+		s.laterChunk++
+	}
+	if sg.lastCompleted != "" {
+		s.afterDone++
+	}
+	s.byOrder[sg.tag.Order]++
 }
 
 // ---------------------------------------------------------------- generator
@@ -98,9 +197,123 @@ func (c queueComp) Generate(r *Rand, tier string, n int) [][]string {
 	now := time.Now().Unix()
 	var cases [][]string
 	for i := 0; i < n; i++ {
+		if !c.prio && r.Chance(0.15) {
+			cases = append(cases, genChainCase(r, now))
+			continue
+		}
 		cases = append(cases, genQueueCase(r, tier, now, c.prio))
 	}
 	return cases
+}
+
+// genChainCase: the queue right after a sender restart (client.recover()): per group, optionally a file sent
+// completely beforehand, then 1..4 fully allocated placeholders that sort at the head of the list (same
+// timestamp as the files behind them or different ones, every order of the tag), plain files and now and
+// then a resumed file behind them, pushed in any order; then Pops, with late arrivals (another placeholder,
+// a re-push, a file that sorts before the placeholders) in between.
+func genChainCase(r *Rand, now int64) []string {
+	nowS := strconv.FormatInt(now, 10)
+	orders := []string{"fifo", "lifo", "-", "fifo", "lifo", "-", "bogus", "none"}
+	nT := r.Range(1, 2)
+	tl := "tags"
+	var tOrder []string
+	for t := 0; t < nT; t++ {
+		o := r.Pick(orders)
+		tOrder = append(tOrder, o)
+		tl += fmt.Sprintf(" t%d %d %s %d 0", t+1, r.Intn(2), o, []int{0, 0, 3, 4, 5, 10, 1000}[r.Intn(7)])
+	}
+	ops := []string{tl}
+	nG := r.Range(1, 3)
+	var late []string
+	for g := 0; g < nG; g++ {
+		t := r.Intn(nT)
+		order := tOrder[t]
+		gname := fmt.Sprintf("t%d.g%d", t+1, g)
+		base := qOld + 100
+		sameTime := r.Chance(0.4)
+		// a file sent completely before the crash is not in the queue after a restart; within one run
+		// (placeholders arriving later, e.g. zero-size files) it is: both are generated
+		var pre []string
+		if r.Chance(0.3) {
+			pre = append(pre, fmt.Sprintf("push %s/%s 3 %d", gname, "Z0", base), "pop "+nowS)
+		}
+		nP := []int{1, 1, 2, 2, 3, 4}[r.Intn(6)]
+		nF := r.Range(1, 3)
+		// rank 0..nP-1 placeholders, nP.. the files behind them: names ascending with the rank; times
+		// ascending (fifo), descending (lifo), equal (sameTime), irrelevant (alpha, bogus: arrival order)
+		tm := func(rank int) int64 {
+			if sameTime {
+				return base
+			}
+			switch order {
+			case "lifo":
+				return base + 50 - int64(rank)*int64(r.Range(1, 3))
+			case "-", "bogus", "none":
+				return base + int64(r.Intn(5))
+			}
+			return base + int64(rank)*int64(r.Range(1, 3))
+		}
+		var batch []string
+		for k := 0; k < nP; k++ {
+			if r.Chance(0.1) {
+				batch = append(batch, fmt.Sprintf("push %s/a%d 0 %d", gname, k, tm(k))) // zero-size plain file: allocated at once
+			} else {
+				batch = append(batch, fmt.Sprintf("push %s/a%d %d %d rec -", gname, k, []int{1, 5, 10}[r.Intn(3)], tm(k)))
+			}
+		}
+		for k := 0; k < nF; k++ {
+			size := []int{1, 3, 5, 10, 11}[r.Intn(5)]
+			if k == 0 && r.Chance(0.12) {
+				batch = append(batch, fmt.Sprintf("push %s/m%d %d %d rec %s %d:%d", gname, k, size+2, tm(nP+k),
+					r.Pick([]string{"-", gname + "/a0", "elsewhere/x", gname + "/m0"}), 1, size+2))
+			} else {
+				batch = append(batch, fmt.Sprintf("push %s/m%d %d %d", gname, k, size, tm(nP+k)))
+			}
+		}
+		if order != "bogus" && order != "none" || r.Chance(0.3) {
+			// recover() queues in cache order: any order of arrival (without a matcher the arrival order is the list order)
+			for i := len(batch) - 1; i > 0; i-- {
+				j := r.Intn(i + 1)
+				batch[i], batch[j] = batch[j], batch[i]
+			}
+		}
+		ops = append(ops, pre...)
+		ops = append(ops, batch...)
+		// late arrivals
+		if r.Chance(0.35) {
+			late = append(late, fmt.Sprintf("push %s/a%d 4 %d rec -", gname, nP, tm(nP))) // one more placeholder, in front of a half-emitted file
+		}
+		if r.Chance(0.2) {
+			late = append(late, fmt.Sprintf("push %s/m0 %d %d", gname, 2, tm(nP))) // the survivor queued again
+		}
+		if r.Chance(0.2) {
+			late = append(late, fmt.Sprintf("push %s/A %d %d", gname, 2, qOld)) // sorts before everything
+		}
+		if r.Chance(0.15) {
+			late = append(late, fmt.Sprintf("push %s/a0 3 %d", gname, tm(0))) // a placeholder's name queued as a plain file
+		}
+	}
+	if r.Chance(0.3) {
+		ops = append(ops, "dump")
+	}
+	for k := r.Range(2, 14); k > 0; k-- {
+		if len(late) > 0 && r.Chance(0.3) {
+			i := r.Intn(len(late))
+			ops = append(ops, late[i])
+			late = append(late[:i], late[i+1:]...)
+			continue
+		}
+		if r.Chance(0.07) {
+			ops = append(ops, "dump")
+		}
+		ops = append(ops, "pop "+nowS)
+	}
+	ops = append(ops, "dump")
+	for k := r.Range(0, 12); k > 0; k-- {
+		ops = append(ops, "pop "+nowS)
+	}
+	ops = append(ops, "dump")
+	return ops
 }
 
 func genQueueCase(r *Rand, tier string, now int64, prio bool) []string {
@@ -356,24 +569,29 @@ type shGroup struct {
 	lastServed    int // index of the pop that served it last, -1
 	pure          bool
 	seen          map[string]bool
+	// anchor: the name the first listed file announces (Lemmas/QueueAnchor `GroupSt.anchorName`): unchanged by
+	// Push (pushFile_anchor), the served file once it is emitted completely (emit_anchor), the last file the
+	// skip loop dropped (Lemmas/QueuePlaceholder `scanned_chain`)
+	anchor string
 }
 
 type queueExec struct {
-	prio    bool // evaluate the C12 oracles (else the C10 oracles)
-	q       *queue.Tagged
-	tags    []*queue.Tag
-	groups  []*shGroup // specification order
-	byName  map[string]*shGroup
-	fails   []string
-	key     strings.Builder
-	seq     int
-	pops    int
-	nPush   int
-	nChunk  int
-	repush  bool
-	anyRec  bool
-	allOnce bool // every name pushed at most once so far (whole queue)
-	names   map[string]bool
+	prio     bool // evaluate the C12 oracles (else the C10 oracles)
+	q        *queue.Tagged
+	tags     []*queue.Tag
+	groups   []*shGroup // specification order
+	byName   map[string]*shGroup
+	fails    []string
+	key      strings.Builder
+	seq      int
+	pops     int
+	nPush    int
+	nChunk   int
+	repush   bool
+	anyRec   bool
+	allOnce  bool // every name pushed at most once so far (whole queue)
+	names    map[string]bool
+	chainHit bool // this case has put Pop behind dropped placeholders at least once (qChainStats.cases)
 }
 
 func (c queueComp) NewExec() Exec {
@@ -411,10 +629,20 @@ func shAfter(order string, a, b *shEnt) bool {
 	return a.seq > b.seq
 }
 
-func (g *shGroup) skipLeading() {
+// skipLeading: the specification of Pop's loop `for next != nil && next.isAllocated()`: fully allocated
+// files (placeholders queued by recover(), zero-size files, files emitted completely) leave the head of
+// the list as long as another file stands behind them. It returns the dropped entries in list order.
+// Props/C07Chain `chain_continues_after_placeholders`: the last dropped one stays linked in front of the
+// survivor, so it becomes the group's anchor (the name the first listed file announces).
+func (g *shGroup) skipLeading() (dropped []*shEnt) {
 	for len(g.ents) >= 2 && g.ents[0].allocated() {
+		dropped = append(dropped, g.ents[0])
 		g.ents = g.ents[1:]
 	}
+	if n := len(dropped); n > 0 {
+		g.anchor = dropped[n-1].name
+	}
+	return dropped
 }
 
 // ready: Props/C12 `GroupSt.ready`
@@ -648,7 +876,7 @@ func (e *queueExec) shadowPop(now int64, name string, off, ln int64, prev string
 		}
 		h.skipLeading()
 	}
-	sg.skipLeading()
+	dropped := sg.skipLeading()
 	// C10 pop_is_min
 	var cur *shEnt
 	for _, c := range sg.ents {
@@ -706,6 +934,43 @@ func (e *queueExec) shadowPop(now int64, name string, off, ln int64, prev string
 			e.fail("prev-not-last-completed: %s announces %q but the file of group %s completed most recently is %q", name, prev, sg.name, sg.lastCompleted)
 		}
 	}
+	// C07 chain_continues / C10 chain_continues_after_placeholders: the scan has just dropped one or more
+	// fully allocated placeholders that stood directly in front of the served file at the head of its
+	// group: a plain file of an ordered group announces the LAST of them (a resumed file announces its
+	// own recorded predecessor: prev-recovered above)
+	if n := len(dropped); n > 0 && sg.tag.Order != sts.OrderNone && cur.rec == nil && len(sg.ents) > 0 && sg.ents[0] == cur {
+		want := dropped[n-1].name
+		if want == name {
+			want = ""
+		}
+		e.noteChain(sg, dropped, cur)
+		if prev != want {
+			var names []string
+			for _, d := range dropped {
+				names = append(names, d.name)
+			}
+			e.fail("prev-chain-lost: %s is the first file of group %s (order %q) behind the fully allocated placeholder(s) [%s] that this Pop dropped from the head of the list; it must announce the last of them, %q, but announces %q",
+				name, sg.name, sg.tag.Order, strings.Join(names, " "), want, prev)
+		}
+	} else if len(dropped) > 0 && len(sg.ents) > 0 && sg.ents[0] == cur {
+		if cur.rec != nil {
+			qChainStats.resumedSurvivor++
+		} else {
+			qChainStats.unordered++
+		}
+	}
+	// the same chain at every other chunk: a plain file of an ordered group announces the group's anchor
+	// (the file completed most recently or the placeholder dropped most recently, whichever happened last)
+	if sg.tag.Order != sts.OrderNone && cur.rec == nil && len(sg.ents) > 0 && sg.ents[0] == cur {
+		want := sg.anchor
+		if want == name {
+			want = ""
+		}
+		if prev != want {
+			e.fail("prev-chain-anchor: %s of group %s (order %q) announces %q, but the file standing in front of it in the chain (completed or dropped as a placeholder most recently) is %q",
+				name, sg.name, sg.tag.Order, prev, sg.anchor)
+		}
+	}
 	// move the specification along
 	if cur.rec == nil {
 		cur.alloc += ln
@@ -721,6 +986,7 @@ func (e *queueExec) shadowPop(now int64, name string, off, ln int64, prev string
 		}
 		sg.done[name] = true
 		sg.lastCompleted = name
+		sg.anchor = name
 	}
 	sg.lastServed = e.pops
 	// specification of delayGroup: behind every group of its priority
